@@ -174,6 +174,11 @@ def rand_universe(rng, o=None, uid=0):
                     at_ = rand_prim(rng, o, allow_occ=False)
                     if rng.random() < .3:
                         at_['min_occurs'] = 1          # a required attribute
+                    if getattr(o, 'id_href_attrs', False) and rng.random() < .5:
+                        # attribute names that SOAP 1.1 section 5 encoding gives a meaning to
+                        fn2 = rng.choice(('id', 'href'))
+                        if fn2 not in [f[0] for f in fields] and at_['prim'] in ('Unicode', 'AnyUri', 'Integer'):
+                            fn = fn2
                     fields.append([fn, {'attr': at_}])
                 else:
                     fields.append([fn, rand_tspec(rng, o, [t for t in types if True], o.max_depth - 1)])
